@@ -237,6 +237,66 @@ End Native.
 Arguments RawPriv {sk pk} s.
 Arguments RawPub {sk pk} p.
 
+(* ---------- key generation: the plumbing of the `private` flag ---------- *)
+(* <KeyClass>.generate_key(size_or_crv, parameters, private, auto_kid):
+     raw_key = <native generate>
+     if private: key = cls(raw_key, ...)  else: key = cls(raw_key.public_key(), ...)
+   OctKey: `if not private: raise ValueError`.
+   JWKRegistry.generate_key(key_type, crv_or_size, parameters, private, auto_kid):
+     unknown key_type -> InvalidKeyTypeError, else the class method with the SAME flag.
+   KeySet.generate_key_set(key_type, crv_or_size, parameters, private, count): count times the
+   registry call with the same flag.
+   BaseKey.dict_value of such a key: convert_raw_key_to_dict(raw_value, is_private), then
+   update(extra_parameters), then ["kty"] = key_type. *)
+Section Generate.
+  Variables (sk pk : Type).
+  Variable pub_of : sk -> pk.
+  Variable fresh : kind -> nat -> sk.                 (* the i-th native key generated *)
+  Variable export_private : kind -> sk -> kd.         (* binding.export_private_key *)
+  Variable export_public : kind -> pk -> kd.          (* binding.export_public_key *)
+
+  Record gkey := { g_kind : kind; g_raw : raw sk pk }.
+
+  Definition class_generate (k : kind) (i : nat) (private : pv) : res gkey :=
+    match k with
+    | KOct => if py_truth private then Ok {| g_kind := k; g_raw := RawPriv (fresh k i) |} else Err EValue
+    | _ => Ok {| g_kind := k;
+                 g_raw := if py_truth private then RawPriv (fresh k i) else RawPub (pub_of (fresh k i)) |}
+    end.
+
+  (* [known]: key_type in JWKRegistry.key_types *)
+  Definition registry_generate (known : bool) (k : kind) (i : nat) (private : pv) : res gkey :=
+    if known then class_generate k i private else Err (EJose InvalidKeyTypeError).
+
+  Fixpoint keyset_generate (known : bool) (k : kind) (private : pv) (count : nat) : res (list gkey) :=
+    match count with
+    | O => Ok []
+    | S n =>
+        do rest <- keyset_generate known k private n;      (* order of the natives is irrelevant *)
+        do g <- registry_generate known k n private;
+        Ok (rest ++ [g])
+    end.
+
+  Definition g_is_private (g : gkey) : bool :=
+    match g_kind g with KOct => true | _ => raw_is_private sk pk (g_raw g) end.
+
+  Definition kty_name (k : kind) : str :=
+    match k with KOct => asc "oct" | KRSA => asc "RSA" | KEC => asc "EC" | KOKP => asc "OKP" end.
+
+  Definition g_dict_value (g : gkey) (params : kd) : kd :=
+    let conv := match g_raw g with
+                | RawPriv s => export_private (g_kind g) s
+                | RawPub p => export_public (g_kind g) p
+                end in
+    dset (dupdate conv params) s_kty (PStr (kty_name (g_kind g))).
+
+  Definition g_key (g : gkey) (params : kd) : key :=
+    {| k_kind := g_kind g; k_raw_private := raw_is_private sk pk (g_raw g); k_dict := g_dict_value g params |}.
+End Generate.
+
+Arguments g_kind {sk pk} g.
+Arguments g_raw {sk pk} g.
+
 (* ---------- Spec (from the property text) ---------- *)
 (* the private parameters per key type: d, p, q, dp, dq, qi, oth, k *)
 Definition spec_private (k : kind) : list str :=
